@@ -269,8 +269,12 @@ void anonymize_posts::operator()(post_t& post)
     account_names.push_front(sha1sum(buf.str(), 8));
   }
 
+  account_t * master_account = xact.journal ? xact.journal->master : post.account;
+  while (! xact.journal && master_account && master_account->parent)
+    master_account = master_account->parent;
+
   account_t * new_account =
-    create_temp_account_from_path(account_names, temps, xact.journal->master);
+    create_temp_account_from_path(account_names, temps, master_account);
   post_t& temp = temps.copy_post(post, xact, new_account);
   temp.note = none;
   temp.add_flags(POST_ANONYMIZED);
@@ -1206,7 +1210,7 @@ void transfer_details::operator()(post_t& post)
         std::list<string> account_names;
         split_string(account_name, ':', account_names);
         temp.account = create_temp_account_from_path(account_names, temps,
-                                                     xact.journal->master);
+                                                     master);
         temp.account->add_post(&temp);
 
         temp.account->add_flags(prev_account->flags());
